@@ -360,6 +360,14 @@ func Tick() {
 	}
 }
 
+// TickN charges n ticks at once (the instrumenter puts it after every string-growing assignment: n = bytes copied / 64).
+func TickN(n int) {
+	ticks += int64(n)
+	if ticks > budget {
+		tickOver()
+	}
+}
+
 func tickOver() {
 	t := ticks
 	if atomic.CompareAndSwapInt32(&hung, 0, 1) {
@@ -374,6 +382,11 @@ func tickOver() {
 }
 
 func Ticks() int64 { return ticks }
+
+// Abort makes the next Tick of any task end the run as a hang. The engine calls it when a run exceeds its wall-clock
+// limit although simulated time still advances (a loop whose iterations get ever more expensive).
+func Abort() { budget = 0 }
+
 func Hung() bool   { return atomic.LoadInt32(&hung) != 0 }
 
 // HangCh is closed when some task exhausted the budget.
